@@ -8,6 +8,9 @@
               → OpenOptions.write.create_new.open (O_CREAT|O_EXCL, file is created EMPTY) → write_all "pid:ts"
     command:  one abstract `work` step (the critical section)
     drop:     exists → remove_file, unconditionally and ignoring errors.
+    prompt:   SIGINT while the confirmation prompt waits (the process is inside its command): the handler calls
+              `release_held_locks()` = remove_file of every held lock path (no exists, errors ignored), then
+              `process::exit(130)` — event `promptInt`.
               (`release()`, which checks the content, has no caller outside `lock.rs`'s own tests.)
     exit:     a finished / failed / panicked process leaves; its pid is dead from then on.
 
@@ -28,10 +31,22 @@ inductive Content
   | invalid                     -- not UTF-8: `read_to_string` fails
   deriving DecidableEq, Repr, Inhabited
 
+/-- why a process is about to remove the lock file it has read -/
+inductive Why
+  | stale | orphaned | empty | unparsable
+  deriving DecidableEq, Repr, Inhabited
+
+/-- which lock files without a "pid:timestamp" does `acquire` remove as abandoned? -/
+inductive Abandon
+  | none          -- none: they fall through to `create_new` and fail with EEXIST (the pinned tree, HEAD)
+  | empty         -- only an empty one (repo commit 9509d2d, taken back by 1eba07a)
+  | unparsable    -- every one that does not split into two parts (proposed fix c12_publish_lock_by_link)
+  deriving DecidableEq, Repr, Inhabited
+
 inductive Err
   | readFailed                  -- "Failed to read lock file": ENOENT at `File::open`
   | readInvalid                 -- "Failed to read lock file content": the bytes are not UTF-8
-  | removeFailed (stale : Bool) -- "Failed to remove stale|orphaned lock file": ENOENT at `remove_file`
+  | removeFailed (why : Why)    -- "Failed to remove stale|orphaned|empty|unparsable lock file": ENOENT
   | alreadyRunning (pid : Nat)  -- "Another renamify process is already running (PID: ..)"
   | createExists                -- "Failed to create lock file": EEXIST at `create_new`
   deriving DecidableEq, Repr, Inhabited
@@ -42,7 +57,7 @@ inductive Pc
   | sawPresent                  -- next: `File::open`
   | opened (ino : Nat)          -- next: `read_to_string`
   | readDone (c : Content)      -- next: the decision (SystemTime::now, kill(pid, 0)); no filesystem call
-  | unlinkPending (stale : Bool) -- next: `fs::remove_file` (stale / orphaned branch)
+  | unlinkPending (why : Why)   -- next: `fs::remove_file` (stale / orphaned / empty branch)
   | mkdir (ts : Nat)            -- next: `create_dir_all`; `ts` = timestamp already taken
   | create (ts : Nat)           -- next: `open(O_CREAT|O_EXCL)`
   | created (ts : Nat)          -- next: `write_all "pid:ts"`
@@ -60,13 +75,23 @@ def staleTimeout : Nat := 300
 inductive FsCall
   | exists | fileOpen | readToString | removeFile | createDirAll | openOptionsNew
   | optWrite | optCreateNew | optCreate | optTruncate | optAppend | optOpen | writeAll
+  | fsWrite | hardLink
   deriving DecidableEq, Repr
 
-def expectedAcquireShape : List FsCall :=
-  [.exists, .fileOpen, .readToString, .removeFile, .removeFile, .createDirAll,
-   .openOptionsNew, .optWrite, .optCreateNew, .optOpen, .writeAll]
+/-- the call sequence of `acquire` for the three shapes of the source that the model knows:
+    `abandon` = which unparsable lock files are removed, `byLink` = the lock file is published complete
+    (`fs::write` of a private temporary file, `fs::hard_link` to the lock path, `remove_file` of the temporary
+    file) instead of `create_new` + `write_all` (+ `remove_file` when that write fails) -/
+def expectedAcquireShape (abandon : Abandon) (byLink : Bool) : List FsCall :=
+  [.exists, .fileOpen, .readToString, .removeFile, .removeFile]
+  ++ (match abandon with | .none => [] | _ => [.removeFile])
+  ++ [.createDirAll]
+  ++ (if byLink then [.fsWrite, .hardLink, .removeFile]
+      else [.openOptionsNew, .optWrite, .optCreateNew, .optOpen, .writeAll, .removeFile])
 
-def expectedDropShape : List FsCall := [.exists, .removeFile]
+def expectedDropShape (checksContent : Bool) : List FsCall :=
+  if checksContent then [.removeFile] else [.exists, .removeFile]
+def expectedReleaseHeldShape : List FsCall := [.removeFile]
 
 def pidOf (p : Nat) : Nat := p + 2      -- pid 0 = "did not parse", pid 1 = the conventional orphan
 def inoOf (p : Nat) : Nat := p + 1      -- inode 0 = the file present initially
@@ -81,6 +106,10 @@ structure State where
   pc : Nat → Pc
   debug : Bool                  -- overflow checks on (debug build) or wrapping (release build)
   exits : Bool                  -- whether terminated processes leave (their pid becomes dead)
+  abandon : Abandon             -- which unparsable lock files acquire removes as abandoned
+  atomicPublish : Bool          -- the lock file appears at its path complete (hard_link of a temporary file)
+  saturating : Bool             -- the age is `current_time.saturating_sub(timestamp)` (no panic, no wrap)
+  dropChecks : Bool             -- Drop / release_held_locks remove the file only if its content is still ours
   stolen : Bool                 -- ghost: some process unlinked a file created by another live owner
   deriving Inhabited
 
@@ -99,15 +128,26 @@ def Pc.terminal : Pc → Bool
 def wrapSub (a b : Nat) : Nat := if b ≤ a then a - b else a + 2 ^ 64 - b
 
 /-- the decision taken after reading content `c`, at time `now` with liveness `alive` -/
-def decide' (debug : Bool) (now : Nat) (alive : Nat → Bool) : Content → Pc
-  | .empty => .mkdir now
-  | .garbage => .mkdir now
+def decide' (debug saturating : Bool) (abandon : Abandon) (now : Nat) (alive : Nat → Bool) : Content → Pc
+  | .empty =>
+    match abandon with
+    | .none => .mkdir now
+    | .empty => .unlinkPending .empty
+    | .unparsable => .unlinkPending .unparsable
+  | .garbage =>
+    match abandon with
+    | .unparsable => .unlinkPending .unparsable
+    | _ => .mkdir now
   | .invalid => .mkdir now      -- unreachable: `read_to_string` has failed before
   | .pidts pid ts =>
-    if now < ts ∧ debug then .panicked
-    else if wrapSub now ts > staleTimeout then .unlinkPending true
+    if saturating then
+      if now - ts > staleTimeout then .unlinkPending .stale
+      else if alive pid then .failed (.alreadyRunning pid)
+      else .unlinkPending .orphaned
+    else if now < ts ∧ debug then .panicked
+    else if wrapSub now ts > staleTimeout then .unlinkPending .stale
     else if alive pid then .failed (.alreadyRunning pid)
-    else .unlinkPending false
+    else .unlinkPending .orphaned
 
 /-- ghost bookkeeping for an unlink by `p` of inode `i` -/
 def steals (s : State) (p : Nat) (i : Nat) : Bool :=
@@ -130,7 +170,7 @@ def step (s : State) (p : Nat) : Option State :=
     | .opened i =>
       if s.files i = .invalid then some { s with pc := upd s.pc p (.failed .readInvalid) }
       else some { s with pc := upd s.pc p (.readDone (s.files i)) }
-    | .readDone c => some { s with pc := upd s.pc p (decide' s.debug s.now s.alive c) }
+    | .readDone c => some { s with pc := upd s.pc p (decide' s.debug s.saturating s.abandon s.now s.alive c) }
     | .unlinkPending b =>
       match s.cell with
       | some i => some { s with cell := none, stolen := s.stolen || steals s p i,
@@ -139,15 +179,25 @@ def step (s : State) (p : Nat) : Option State :=
     | .mkdir ts => some { s with pc := upd s.pc p (.create ts) }
     | .create ts =>
       match s.cell with
-      | none => some { s with cell := some (inoOf p), files := upd s.files (inoOf p) .empty,
-                              pc := upd s.pc p (.created ts) }
+      | none =>
+        if s.atomicPublish then
+          -- hard_link of the complete temporary file: the lock appears with its content, acquire returns
+          some { s with cell := some (inoOf p), files := upd s.files (inoOf p) (.pidts (pidOf p) ts),
+                        pc := upd s.pc p .holding }
+        else
+          some { s with cell := some (inoOf p), files := upd s.files (inoOf p) .empty,
+                        pc := upd s.pc p (.created ts) }
       | some _ => some { s with pc := upd s.pc p (.failed .createExists) }
     | .created ts => some { s with files := upd s.files (inoOf p) (.pidts (pidOf p) ts),
                                    pc := upd s.pc p .holding }
     | .holding => some { s with pc := upd s.pc p .dropCheck }
     | .dropCheck =>
+      -- `self.path.exists()`; or, when Drop checks the content, open+read and compare with "pid:timestamp"
+      -- (pids are unique, so "the content is ours" = "the inode is the one we created")
       match s.cell with
-      | some _ => some { s with pc := upd s.pc p .dropUnlink }
+      | some i =>
+        if s.dropChecks ∧ i ≠ inoOf p then some { s with pc := upd s.pc p .done }
+        else some { s with pc := upd s.pc p .dropUnlink }
       | none => some { s with pc := upd s.pc p .done }
     | .dropUnlink =>
       match s.cell with
@@ -157,15 +207,28 @@ def step (s : State) (p : Nat) : Option State :=
       if s.exits ∧ s.alive (pidOf p) then some { s with alive := upd s.alive (pidOf p) false } else none
   else none
 
-/-- schedule events: a call of process `p`, or the clock advancing -/
+/-- SIGINT at the confirmation prompt of a process that is inside its command: `release_held_locks`
+    unlinks the lock path without looking at it, then the process exits (its next `step` is the exit) -/
+def promptExit (s : State) (p : Nat) : State :=
+  if p < s.n ∧ s.pc p = .holding then
+    match s.cell with
+    | some i =>
+      if s.dropChecks ∧ i ≠ inoOf p then { s with pc := upd s.pc p .done }
+      else { s with cell := none, stolen := s.stolen || steals s p i, pc := upd s.pc p .done }
+    | none => { s with pc := upd s.pc p .done }
+  else s
+
+/-- schedule events: a call of process `p`, the clock advancing, or Ctrl-C at `p`'s confirmation prompt -/
 inductive Ev
   | proc (p : Nat)
   | tick (secs : Nat)
+  | promptInt (p : Nat)
   deriving DecidableEq, Repr
 
 def stepEv (s : State) : Ev → State
   | .proc p => (step s p).getD s
   | .tick d => { s with now := s.now + d }
+  | .promptInt p => promptExit s p
 
 def run (s : State) : List Ev → State
   | [] => s
@@ -186,7 +249,18 @@ def settle : Nat → State → State
 def base (n now : Nat) (debug exits : Bool) : State :=
   { n := n, cell := none, files := fun _ => .empty, now := now,
     alive := fun pid => decide (2 ≤ pid ∧ pid < n + 2),
-    pc := fun _ => .start, debug := debug, exits := exits, stolen := false }
+    pc := fun _ => .start, debug := debug, exits := exits, abandon := .none, atomicPublish := false, saturating := false, dropChecks := false,
+    stolen := false }
+
+/-- the same state for the source WITH the empty-file branch -/
+def withEmptyBranch (s : State) : State := { s with abandon := .empty }
+
+/-- the two small repairs of `lock.rs` -/
+def withSaturating (s : State) : State := { s with saturating := true }
+def withDropChecks (s : State) : State := { s with dropChecks := true }
+
+/-- … and for the proposed fix: publish by hard link, every unparsable lock file is abandoned -/
+def withPublishFix (s : State) : State := { s with abandon := .unparsable, atomicPublish := true }
 
 /-- lock file absent -/
 def initAbsent (n now : Nat) (debug exits : Bool) : State := base n now debug exits
